@@ -1,18 +1,45 @@
 (* Extraction of the executable models (ExtrOcamlBasic only: bool, option, list, prod, unit,
-   sumbool are mapped to OCaml's; Z, positive, N, nat, Q stay the extracted Coq datatypes). *)
+   sumbool are mapped to OCaml's; Z, positive, N, nat, Q, string stay the extracted Coq datatypes). *)
 Require Extraction.
-Require Import ExtrOcamlBasic.
-From Coq Require Import ZArith QArith.
-From GMGP Require Import Scalar GridDefs.
-From GMGPGen Require Import GridIndexGen.
+Require Import ExtrOcamlBasic ExtrOcamlZBigInt.
+From Coq Require Import ZArith QArith String.
+From GMGP Require Import Scalar GridDefs TridiagDefs SparseLUDefs ObjectsDefs.
+From GMGPGen Require Import GridIndexGen SpecialMembersGen.
 
 Extraction Language OCaml.
 Set Extraction Optimize.
 
 Definition q_split_explicit := split_explicit Q Qltb.
 
+(* Q instances of the scalar-polymorphic models *)
+Definition q_solve_tri := @solve_tri Qsc.
+Definition q_solve_cyc := @solve_cyc Qsc.
+Definition q_matvec_tri := @matvec_tri Qsc.
+Definition q_matvec_cyc := @matvec_cyc Qsc.
+Definition q_diag_solve := @diag_solve Qsc.
+Definition q_tri_solve := @tri_solve Qsc.
+Definition q_tri_default := @tri_default Qsc.
+Definition q_mkTri := @mkTri Qsc.
+Definition q_obj_of_tri := @obj_of_tri Qsc.
+Definition q_tri_of_obj := @tri_of_obj Qsc.
+Definition q_apply_target := @apply_target Qsc.
+Definition q_apply_source := @apply_source Qsc.
+Definition q_lu_factor := @lu_factor Qsc.
+Definition q_lu_solve := @lu_solve Qsc.
+Definition q_csr_apply := @csr_apply Qsc.
+Definition q_pivots := @pivots Qsc.
+Definition q_csr_of_triplets := @csr_of_triplets Qsc.
+Definition q_csr_of_arrays := @csr_of_arrays Qsc.
+
 Extraction "model"
-  Qsc Qltb Qred Z.add Z.sub Z.mul Z.opp Z.pow Z.ltb Z.eqb Z.of_nat Z.to_nat Pos.add Pos.mul
+  Qsc Qltb Qred Qplus Qminus Qmult Qdiv Qopp Qle_bool Qeq_bool
+  Z.add Z.sub Z.mul Z.opp Z.pow Z.ltb Z.eqb Z.of_nat Z.to_nat Pos.add Pos.mul
   mkGrid spec_wrap spec_index spec_multi gen_pow2flag gen_ncn gen_wrap gen_index gen_fast_index
   gen_multi_r gen_multi_t q_split_explicit split_auto every_second coarse_nr coarse_nth
-  nb_theta_m1 nb_theta_p1.
+  nb_theta_m1 nb_theta_p1
+  q_solve_tri q_solve_cyc q_matvec_tri q_matvec_cyc q_diag_solve q_tri_solve q_tri_default q_mkTri
+  q_obj_of_tri q_tri_of_obj q_apply_target q_apply_source
+  inv_SymmetricTridiagonalSolver gen_SymmetricTridiagonalSolver_copy_ctor
+  gen_SymmetricTridiagonalSolver_copy_assign gen_SymmetricTridiagonalSolver_move_ctor
+  gen_SymmetricTridiagonalSolver_move_assign
+  q_lu_factor q_lu_solve q_csr_apply q_pivots q_csr_of_triplets q_csr_of_arrays.
